@@ -181,6 +181,9 @@ func ruleNODESOURCES(c *Ctx, r *Report) {
 		allowed[pt.Wrapper] = "default-field wrapper"
 	}
 	allowed[pr.ParseLoop] = "acceptance case"
+	for _, g := range c.acceptHelpers(pr) {
+		allowed[g] = "acceptance case (helper tail-called by the parse loop at end of input)"
+	}
 	n := 0
 	for _, f := range c.Funcs {
 		p := fnPkgPath(f)
@@ -313,6 +316,16 @@ func ruleDFFLOW(c *Ctx, r *Report) {
 				}
 				n++
 				key := fnName(f) + "|" + s
+				isAcceptHelper := false
+				for _, g := range c.acceptHelpers(pr) {
+					if g == f {
+						isAcceptHelper = true
+					}
+				}
+				if isAcceptHelper {
+					r.ok(rule, key, c.instrPos(iff), "single-term acceptance case (helper)")
+					continue
+				}
 				if f == pr.ParseLoop {
 					acc := false
 					for _, d := range c.expand(c.domAtoms(b), nil) {
@@ -897,4 +910,38 @@ func ruleNORECLASSIFY(c *Ctx, r *Report) {
 	}
 	r.ok(rule, "operands-examined", "-", fmt.Sprintf("%d constructor operands in the parser packages examined", n))
 	r.floor(rule, "constructor operands", n, 25)
+}
+
+// acceptHelpers: parser methods the parse loop tail-calls under the acceptance condition (end of input).
+func (c *Ctx) acceptHelpers(pr *ParserRoles) []*ssa.Function {
+	if v, ok := c.roles["accepthelpers"]; ok {
+		return v.([]*ssa.Function)
+	}
+	var out []*ssa.Function
+	paths, _ := c.enumPaths(pr.ParseLoop, 5000)
+	for _, p := range paths {
+		g := c.identityTailCallee(pr.ParseLoop, p)
+		if g == nil {
+			continue
+		}
+		acc := false
+		for _, a := range c.expand(p.Atoms, p.Env) {
+			if a.Kind == "cmp" && a.Op == "==" && a.Val == "lex.TEOF" {
+				acc = true
+			}
+		}
+		if acc {
+			dup := false
+			for _, o := range out {
+				if o == g {
+					dup = true
+				}
+			}
+			if !dup {
+				out = append(out, g)
+			}
+		}
+	}
+	c.roles["accepthelpers"] = out
+	return out
 }
